@@ -91,6 +91,15 @@ CHECKS = {
         "note": "Trusted: Python ast, E1 resolver and call graph, astropy.io.fits, os / os.path semantics.",
         "technique": "static analysis: flip-parity counting over the resolved call graph; who-may-call rule; guard dominance on os.remove / os.makedirs; dead-handler rule (transitive can-raise); header key agreement between writer and readers",
     },
+    "C17": {
+        "text": "Decides, for every user function and input grid, the structural clauses that make entry k correspond to coordinate k: the three makers dispatch on exactly Grid2D / Grid2DIrregular / Grid1D; the user function "
+                "receives the input grid itself (its radial projection for a Grid1D) plus the caller's extra arguments; its result reaches the container's values= with no intervening operation, element by element and in order for lists "
+                "(pass-through), on the INPUT grid's mask (never a new one), with the grid / over-sampling carried along where the container takes them; project_grid evaluates on the radially projected grid with the profile's centre and "
+                "angle + 90 used whenever they are not None (never by truthiness) and wraps in Array1D with the grid's pixel scale; relocate_to_radial_minimum scales rows with radius < minimum by minimum/radius and all others by the literal 1.0 "
+                "on a new array, never writes into the caller's grid or a view of it, and evaluates the function on the relocated grid; transform applies the frame change once. Not decided: what user functions do; over-sampling interplay (C09).",
+        "note": "Trusted: Python ast, numpy np.where / np.multiply semantics. These are syntactic pass-through / wiring rules over the decorator bodies; C01 supplies the slim-order meaning of 'entry k'.",
+        "technique": "static analysis: pass-through and dispatch rules over the AST of the decorator layer; alias-based no-write-to-input rule; guard-form rule",
+    },
 }
 
 NOT_APPLICABLE = {f"C{n:02d}": PENDING for n in range(1, 21) if f"C{n:02d}" not in CHECKS}
